@@ -166,6 +166,11 @@ func (it *Interp) prepareDefer(fr *frame, call *ssa.CallCommon) *deferred {
 
 func (it *Interp) callBuiltin(b *ssa.Builtin, args []Value, call *ssa.CallCommon) Value {
 	c := it.C
+	for i := range args {
+		if _, ok := args[i].(LazyBytesV); ok {
+			args[i] = it.forceLazy(args[i])
+		}
+	}
 	switch b.Name() {
 	case "len":
 		switch x := args[0].(type) {
@@ -219,9 +224,7 @@ func (it *Interp) callBuiltin(b *ssa.Builtin, args []Value, call *ssa.CallCommon
 			n = len(src)
 		}
 		if n > 0 {
-			if dst.O.Frozen && it.inInit == 0 {
-				it.abort("copy into init-time object")
-			}
+			it.touch(dst.O)
 			d := dst.O.V.(*ArrayV).E
 			for i := 0; i < n; i++ {
 				d[dst.Off+i] = assignInto(d[dst.Off+i], src[i])
@@ -382,9 +385,7 @@ func (it *Interp) appendOp(a, b Value) Value {
 	}
 	need := s.Len + len(add)
 	if s.O != nil && need <= s.Cap {
-		if s.O.Frozen && it.inInit == 0 {
-			it.abort("append into init-time object")
-		}
+		it.touch(s.O)
 		arr := s.O.V.(*ArrayV).E
 		for i, v := range add {
 			arr[s.Off+s.Len+i] = deepCopy(v)
